@@ -41,6 +41,8 @@ func literalValueFocusSchema() *schema.BodySchema {
 		"lv_elems": {IsOptional: true, Constraint: schema.List{Elem: schema.OneOf{
 			schema.LiteralValue{Value: cty.StringVal("on")}, schema.LiteralValue{Value: cty.StringVal("off")}, schema.LiteralValue{Value: cty.NumberIntVal(0)}}}},
 	}
+	// type declarations, also written compactly (nothing between the last type and the closing bracket)
+	attrs["td"] = &schema.AttributeSchema{IsOptional: true, Constraint: schema.TypeDeclaration{}}
 	return &schema.BodySchema{Attributes: attrs, Blocks: map[string]*schema.BlockSchema{
 		"inner": {Body: &schema.BodySchema{Attributes: attrs}}}}
 }
@@ -59,6 +61,8 @@ var literalWrites = map[string][]string{
 	"lv_nested": {`[["in"]]`, `[["in", 1]]`, `[[1]]`, `["in"]`, `[[]]`},
 	"lv_oneof":  {`"one"`, `2`, `["s"]`, `[1]`, `"two"`, `[["s"]]`},
 	"lv_elems":  {`["on", "off"]`, `["on", 0]`, `[1, "on"]`, `["maybe"]`, `[null]`},
+	"td": {`object({foo=string})`, `object({a=string,b=number})`, `list(object({id=number}))`, `tuple([string,bool])`, `map(list(string))`,
+		`object({ a = optional(string), b = any })`, `set(tuple([object({x=bool})]))`, `string`, `object({})`, `list`, `object({"q k"=string})`},
 }
 
 func literalValueFocusScenario(r *rand.Rand) *Scenario {
